@@ -218,7 +218,12 @@ def _apply(op, p, rec, psi, qubits, dims):
         conds = list(op0.classical_controls)
         if all(_condition_true(c, rec) for c in conds):
             sub = op0._sub_operation
-            subs = list(sub.circuit.all_operations()) if isinstance(sub, cirq.CircuitOperation) and sub.repetitions == 1 and not sub.qubit_map and not sub.measurement_key_map else [sub]
+            if isinstance(sub, cirq.CircuitOperation):
+                if sub.repetitions != 1 or sub.qubit_map or sub.measurement_key_map or sub.parent_path or sub.param_resolver.param_dict or sub.repeat_until is not None:
+                    raise NotImplementedError("cirq.If over a sub-circuit that carries its own scope (path, maps, repetitions): not a flat circuit")
+                subs = list(sub.circuit.all_operations())
+            else:
+                subs = [sub]
             cur = [(p, rec, psi)]
             for s_op in subs:
                 cur = [b for (pp, rr, ss) in cur for b in _apply(s_op, pp, rr, ss, qubits, dims)]
